@@ -395,6 +395,13 @@ pub fn run(ctx: &mut Ctx) {
                     f.anns.push(Facts::ann(kind, 50 + i as u32, &format!("R{i}"), Some(ids[(i + kind.idx()) % ids.len()])));
                 }
                 f.anns.push(Facts::ann(kind, 99, "bare", None));
+                // two records annotated to TWO terms each - the first and the last node - supplied in the two possible
+                // orders (K and k count inherited links: what a second annotation of a record still has to hand up
+                // depends on the shape, not on what the first one already linked)
+                f.anns.push(Facts::ann(kind, 70, "R-first-then-last", Some(ids[0])));
+                f.anns.push(Facts::ann(kind, 70, "R-first-then-last", Some(ids[ids.len() - 1])));
+                f.anns.push(Facts::ann(kind, 71, "R-last-then-first", Some(ids[ids.len() - 1])));
+                f.anns.push(Facts::ann(kind, 71, "R-last-then-first", Some(ids[0])));
             }
             let r = crate::model::RefOnt::derive(&f);
             let Ok(ont) = drive::build(&f, Mode::Minimal) else {
@@ -438,7 +445,7 @@ pub fn run(ctx: &mut Ctx) {
                         };
                         let linked = |t: u32, rec: u32| r.terms[&t].recs[kind.idx()].contains(&rec);
                         let (big_n, sn) = (bg_ids.len(), s_ids.len());
-                        let want: Vec<(u32, usize, usize)> = (0..n as u32).map(|i| (50 + i, bg_ids.iter().filter(|t| linked(**t, 50 + i)).count(), s_ids.iter().filter(|t| linked(**t, 50 + i)).count())).filter(|w| w.2 > 0).collect();
+                        let want: Vec<(u32, usize, usize)> = (0..n as u32).map(|i| 50 + i).chain([70u32, 71]).map(|rec| (rec, bg_ids.iter().filter(|t| linked(**t, rec)).count(), s_ids.iter().filter(|t| linked(**t, rec)).count())).filter(|w| w.2 > 0).collect();
                         if res.len() != want.len() || res.iter().zip(&want).any(|(x, w)| x.0 != w.0) {
                             ctx.violation(site(kind), "not exactly one record per annotation linked to a sample term", case(json!({"observed_ids": res.iter().map(|x| x.0).collect::<Vec<_>>(), "expected_ids": want.iter().map(|w| w.0).collect::<Vec<_>>()})));
                             continue;
